@@ -240,7 +240,10 @@ def monitors(ctx, sc, res, fair, inp):
     sends = {}
     last_send = {}
     by_id = {c["id"]: c for c in sc["callers"]}
+    returned = set()
     for (ms, kind, who, payload) in tr.ev:
+        if kind == "return":
+            returned.add(who)
         if kind == "return" and payload[0] == "none" and who in last_send and ms - last_send[who] < by_id[who]["timeout"]:
             ctx.violation("failure-reported-early", inp, f"failure is reported only after the timeout ({by_id[who]['timeout']} ms) of the last attempt",
                           f"caller {who}: gave up {ms - last_send[who]} ms after its last transmission")
@@ -260,6 +263,13 @@ def monitors(ctx, sc, res, fair, inp):
                     ctx.violation("time-bound", inp, f"lock held at most retry x (timeout + 100 + pause) = {bound} ms", f"{ms - acq_time[who]} ms by caller {who}")
             holder = None
         elif kind == "send":
+            # served in arrival order: nobody transmits while a caller that arrived earlier has not completed
+            first_calls = list(dict.fromkeys(call_order))
+            if who in first_calls:
+                earlier = [x for x in first_calls[:first_calls.index(who)] if x not in returned]
+                if earlier:
+                    ctx.violation("arrival-order", inp, "callers are served in arrival order: a later caller transmits only after every earlier one has completed",
+                                  f"caller {who} transmitted at {ms} ms while earlier caller(s) {earlier} had not completed")
             # one attempt at a time: the previous attempt of this call is only abandoned after its timeout has run out
             if who in last_send and ms - last_send[who] < by_id[who]["timeout"]:
                 ctx.violation("attempt-abandoned-early", inp, f"an unanswered attempt waits its timeout ({by_id[who]['timeout']} ms) before the next one",
